@@ -2,6 +2,7 @@ package resource_updater
 
 import (
 	"context"
+	"github.com/NVIDIA/KAI-scheduler/pkg/queuecontroller/controllers/childqueues_updater"
 
 	v1 "k8s.io/api/core/v1"
 	"k8s.io/apimachinery/pkg/api/resource"
@@ -31,13 +32,13 @@ func c20val(l v1.ResourceList) int64 {
 // API store: parent queue P with child queues C1, C2 holding 2 and 1 pod groups whose reported
 // allocated / non-preemptible / requested quantities are inputs, previously stored queue statuses
 // arbitrary. Children are reconciled in either order, then the parent.
-// BOUND: 2 levels, 2 child queues, 3 pod groups; cpu quantities integers in [0, 2^28)
+// BOUND: 2 levels, 2 child queues, 3 pod groups on the children and 1 directly on the parent; cpu quantities integers in [1, 2^28) (non-preemptible: [0, 2^28)); each reconcile = resource updater + child-queues updater
 func VerifC20_QueueStatus() {
 	st := fake.NewStore()
 	mkQueue := func(name, parent string) *v2.Queue {
 		q := &v2.Queue{ObjectMeta: metav1.ObjectMeta{Name: name}}
 		q.Spec.ParentQueue = parent
-		if vr.AnyBool(name + ".hasStaleStatus") {
+		if name != "C2" && vr.AnyBool(name+".hasStaleStatus") {
 			s, _ := c20q(name + ".stale")
 			q.Status.Allocated = v1.ResourceList{v1.ResourceCPU: s}
 			q.Status.AllocatedNonPreemptible = v1.ResourceList{v1.ResourceCPU: s}
@@ -47,14 +48,20 @@ func VerifC20_QueueStatus() {
 		return q
 	}
 	P, C1, C2 := mkQueue("P", ""), mkQueue("C1", "P"), mkQueue("C2", "P")
-	var want [2][3]int64 // per child: allocated, nonPreemptible, requested
-	for i, qn := range []string{"C1", "C1", "C2"} {
+	var want [3][3]int64 // per child (and, last, the parent's own pod group): allocated, nonPreemptible, requested
+	for i, qn := range []string{"C1", "C1", "C2", "P"} {
 		n := "pg" + string(rune('0'+i))
 		pg := &v2alpha2.PodGroup{ObjectMeta: metav1.ObjectMeta{Name: n, Namespace: "ns"}}
 		pg.Spec.Queue = qn
 		a, av := c20q(n + ".allocated")
-		np, npv := c20q(n + ".nonPreemptible")
+		np, npv := a, av // a non-preemptible pod group reports its allocation in both fields
+		if i != 1 {
+			np, npv = c20q(n + ".nonPreemptible")
+		}
 		r, rv := c20q(n + ".requested")
+		// zero quantities take a separate branch in resource.Quantity arithmetic; they are explored for
+		// the non-preemptible field (where zero is the common case) and excluded elsewhere
+		vr.Assume(av >= 1 && rv >= 1)
 		pg.Status.ResourcesStatus.Allocated = v1.ResourceList{v1.ResourceCPU: a}
 		pg.Status.ResourcesStatus.AllocatedNonPreemptible = v1.ResourceList{v1.ResourceCPU: np}
 		pg.Status.ResourcesStatus.Requested = v1.ResourceList{v1.ResourceCPU: r}
@@ -63,34 +70,39 @@ func VerifC20_QueueStatus() {
 		if qn == "C2" {
 			c = 1
 		}
+		if qn == "P" {
+			c = 2
+		}
 		want[c][0] += av
 		want[c][1] += npv
 		want[c][2] += rv
 	}
 	ru := &ResourceUpdater{Client: &fake.Client{S: st}}
+	cu := &childqueues_updater.ChildQueuesUpdater{Client: &fake.Client{S: st}}
 	ctx := context.Background()
-	order := [][]*v2.Queue{{C1, C2}, {C2, C1}}[vr.Choose("childOrder", 2)]
-	for _, q := range order {
-		if ru.UpdateQueue(ctx, q) != nil {
+	// one reconcile of the queue controller: resource updater, then child-queues updater
+	reconcile := func(q *v2.Queue) {
+		if ru.UpdateQueue(ctx, q) != nil || cu.UpdateQueue(ctx, q) != nil {
 			vr.Stop()
 		}
 	}
-	if ru.UpdateQueue(ctx, P) != nil {
-		vr.Stop()
+	order := [][]*v2.Queue{{C1, C2}, {C2, C1}}[vr.Choose("childOrder", 2)]
+	for _, q := range order {
+		reconcile(q)
 	}
+	reconcile(P)
 	for i, q := range []*v2.Queue{C1, C2} {
 		vr.Assert(c20val(q.Status.Allocated) == want[i][0], "C20.leaf-queue-allocated-is-sum-of-pod-groups")
 		vr.Assert(c20val(q.Status.AllocatedNonPreemptible) == want[i][1], "C20.leaf-queue-non-preemptible-is-sum-of-pod-groups")
 		vr.Assert(c20val(q.Status.Requested) == want[i][2], "C20.leaf-queue-requested-is-sum-of-pod-groups")
 	}
 	vr.Observe("parentAllocated", c20val(P.Status.Allocated))
-	vr.Assert(c20val(P.Status.Allocated) == want[0][0]+want[1][0], "C20.parent-queue-allocated-is-sum-of-children")
-	vr.Assert(c20val(P.Status.AllocatedNonPreemptible) == want[0][1]+want[1][1], "C20.parent-queue-non-preemptible-is-sum-of-children")
-	vr.Assert(c20val(P.Status.Requested) == want[0][2]+want[1][2], "C20.parent-queue-requested-is-sum-of-children")
+	vr.Assert(c20val(P.Status.Allocated) == want[0][0]+want[1][0]+want[2][0], "C20.parent-queue-allocated-is-sum-of-children-and-own-pod-groups")
+	vr.Assert(c20val(P.Status.AllocatedNonPreemptible) == want[0][1]+want[1][1]+want[2][1], "C20.parent-queue-non-preemptible-is-sum-of-children-and-own-pod-groups")
+	vr.Assert(c20val(P.Status.Requested) == want[0][2]+want[1][2]+want[2][2], "C20.parent-queue-requested-is-sum-of-children-and-own-pod-groups")
+	vr.Assert(len(P.Status.ChildQueues) == 2, "C20.parent-queue-lists-its-children")
 	// reconciling the parent again changes nothing
-	before := c20val(P.Status.Allocated)
-	if ru.UpdateQueue(ctx, P) != nil {
-		vr.Stop()
-	}
-	vr.Assert(c20val(P.Status.Allocated) == before, "C20.queue-reconcile-idempotent")
+	before := [3]int64{c20val(P.Status.Allocated), c20val(P.Status.AllocatedNonPreemptible), c20val(P.Status.Requested)}
+	reconcile(P)
+	vr.Assert(c20val(P.Status.Allocated) == before[0] && c20val(P.Status.AllocatedNonPreemptible) == before[1] && c20val(P.Status.Requested) == before[2], "C20.queue-reconcile-idempotent")
 }
